@@ -11,7 +11,7 @@ EXTENDS Naturals, Sequences, FiniteSets, TLC, Json
 
 Items == {"SVID", "UNITS", "RPTID", "ALCD"}
 Unknown == "NOSUCHITEM"
-Names == {"-", "NAMED"}
+Names == {"-", "NAMED", "DATA"}      \* "DATA" is also the default key: an explicit name equal to a default must still be honoured
 
 Item(n) == [k |-> "item", name |-> n, kids |-> <<>>]
 List(n, kids) == [k |-> "list", name |-> n, kids |-> kids]
